@@ -364,17 +364,33 @@ func NewMultiaddrWithValue(ma multiaddr.Multiaddr) Multiaddr {
 
 // MarshalJSON returns a JSON-formatted multiaddress.
 func (maddr Multiaddr) MarshalJSON() ([]byte, error) {
+	if maddr.Multiaddr == nil {
+		return []byte("null"), nil
+	}
 	return maddr.Multiaddr.MarshalJSON()
 }
 
 // UnmarshalJSON parses a cluster Multiaddr from the JSON representation.
 func (maddr *Multiaddr) UnmarshalJSON(data []byte) error {
-	maddr.Multiaddr, _ = multiaddr.NewMultiaddr("/ip4/127.0.0.1") // null multiaddresses not allowed
-	return maddr.Multiaddr.UnmarshalJSON(data)
+	// go-multiaddr's own UnmarshalJSON panics on strings which are not
+	// multiaddresses: parse the string ourselves.
+	var s string
+	if err := json.Unmarshal(data, &s); err != nil {
+		return err
+	}
+	m, err := multiaddr.NewMultiaddr(s)
+	if err != nil {
+		return err
+	}
+	maddr.Multiaddr = m
+	return nil
 }
 
 // MarshalBinary returs the bytes of the wrapped multiaddress.
 func (maddr Multiaddr) MarshalBinary() ([]byte, error) {
+	if maddr.Multiaddr == nil {
+		return nil, errors.New("cannot marshal a nil multiaddress")
+	}
 	return maddr.Multiaddr.MarshalBinary()
 }
 
